@@ -39,6 +39,7 @@ C12CtxText == "(def x 7) (def xs (list 1 2)) (def v [3 4]) (def em ()) (def w '(
            "(defmacro mempty (fn [& r] ())) " \o
            "(defmacro mcall (fn [& xs] `(~@xs))) " \o
            "(defmacro mnest (fn [a] `(do (list 0 (nth [1] ~a))))) " \o
+           "(def m1m (with-meta m1 {:doc 1})) " \o
            "(def f1 (fn [a] (list a a)))"
 C12CtxForms == ReadAll(C12CtxText)
 
@@ -57,7 +58,9 @@ C12GM == Grammar(
     "(cond _1 :c)", "(let [m1 f1] (m1 _1))", "(macroexpand (m2 _1))", "(macroexpand (f1 _1))",
     "(let [m3 (fn [a] :local)] (macroexpand (m3 _1)))",
     \* an error raised by a form nested inside the expansion (its position is the macro call's) / a threading chain failing inside
-    "(mnest _1)", "(-> _1 (nth 7) (or 0))">>,
+    "(mnest _1)", "(-> _1 (nth 7) (or 0))",
+    \* a macro that went through with-meta is still a macro
+    "(m1m _1)", "(macroexpand (m1m _1))">>,
   <<"(m2 _1 _2)", "(or _1 _2)", "(and _1 _2)", "(cond _1 _2)", "(-> _1 (list _2))", "(->> _1 (list _2))",
     "(macroexpand (or _1 _2))", "(eval (macroexpand (or _1 _2)))", "(m5 _1 _2)", "(macroexpand (m5 _1 _2))",
     "(eval (macroexpand (and _1 _2)))", "(macroexpand (cond _1 _2))">>,
